@@ -40,7 +40,10 @@ Record sframe (s s' : vm) : Prop := {
   sf_ip : ip s' = ip s;
   sf_acc : acc s' = acc s;
   sf_log : out_log s' = out_log s;
-  sf_store : sext (st s) (st s')
+  sf_store : sext (st s) (st s');
+  (* global environment: fresh slots (Undefined) and their bindings are appended, nothing else *)
+  sf_slots : exists k, g_slots s' = g_slots s ++ repeat VUndef k;
+  sf_bind : exists nb, g_bind s' = nb ++ g_bind s
 }.
 
 Record kmono (s s' : vm) : Prop := {
@@ -48,12 +51,17 @@ Record kmono (s s' : vm) : Prop := {
   km_store : sext (st s) (st s')
 }.
 
+Ltac sf_globals_same :=
+  try (exists 0%nat; cbn [repeat]; rewrite app_nil_r; reflexivity); try (exists []; reflexivity).
 Lemma sframe_refl s : sframe s s.
-Proof. split; try reflexivity. apply sext_refl. Qed.
+Proof. split; try reflexivity; sf_globals_same. apply sext_refl. Qed.
 Lemma sframe_trans a b c : sframe a b -> sframe b c -> sframe a c.
 Proof.
-  intros [A1 A2 A3 A4 A5 A6 A7 A8 A9] [B1 B2 B3 B4 B5 B6 B7 B8 B9].
-  split; try congruence. eapply sext_trans; eassumption.
+  intros [A1 A2 A3 A4 A5 A6 A7 A8 A9 [k1 A10] [n1 A11]] [B1 B2 B3 B4 B5 B6 B7 B8 B9 [k2 B10] [n2 B11]].
+  split; try congruence.
+  - eapply sext_trans; eassumption.
+  - exists (k1 + k2)%nat. rewrite B10, A10, <- app_assoc, repeat_app. reflexivity.
+  - exists (n2 ++ n1). rewrite B11, A11, app_assoc. reflexivity.
 Qed.
 Lemma kmono_refl s : kmono s s.
 Proof. split; [lia|apply sext_refl]. Qed.
@@ -116,13 +124,16 @@ Proof. intros s. exact I. Qed.
 
 (* ------------------------------------------------------------------ field updates *)
 Lemma sframe_mem s h x : sext (st s) x -> sframe s (with_store (with_heap s h) x).
-Proof. intros H. split; try reflexivity. exact H. Qed.
+Proof. intros H. split; try reflexivity; sf_globals_same. exact H. Qed.
 Lemma sframe_heap s h : sframe s (with_heap s h).
-Proof. split; try reflexivity. apply sext_refl. Qed.
+Proof. split; try reflexivity; sf_globals_same. apply sext_refl. Qed.
 Lemma sframe_store s x : sext (st s) x -> sframe s (with_store s x).
-Proof. intros H. split; try reflexivity. exact H. Qed.
-Lemma sframe_globals s b l : sframe s (with_globals s b l).
-Proof. split; try reflexivity. apply sext_refl. Qed.
+Proof. intros H. split; try reflexivity; sf_globals_same. exact H. Qed.
+(* GlobalEnvironment::get_binding of an unbound symbol: one fresh Undefined slot *)
+Lemma sframe_new_global s b : sframe s (with_globals s (b :: g_bind s) (g_slots s ++ [VUndef])).
+Proof.
+  split; try reflexivity; [apply sext_refl|exists 1%nat; reflexivity|exists [b]; reflexivity].
+Qed.
 
 Lemma sext_new_str x t : sext x (snd (new_str x t)).
 Proof. split; cbn; [lia|auto]. Qed.
@@ -205,16 +216,13 @@ Qed.
 Lemma mono_get_binding p : mono R (get_binding p).
 Proof.
   intros s. unfold get_binding. destruct (assoc_find _ _); [exact (fr_refl s)|].
-  unfold rpost; apply fr_sub, sframe_globals.
+  unfold rpost; apply fr_sub, sframe_new_global.
 Qed.
 Lemma mono_put_lambda l : mono R (put_lambda l).
 Proof.
   intros s. unfold put_lambda. cbv beta iota delta [new_lam]. destruct (heap_put _ _). unfold rpost.
   apply fr_sub, sframe_mem. exact (sext_new_lam (st s) (lambda_finish l)).
 Qed.
-Lemma mono_set_globals (b : vm -> list (N * N)) (l : vm -> list vcell) :
-  mono R (fun s => ROk tt (with_globals s (b s) (l s))).
-Proof. intros s. unfold rpost; apply fr_sub, sframe_globals. Qed.
 End Prims.
 
 (* ------------------------------------------------------------------ primitives, kmono only *)
@@ -262,6 +270,9 @@ Proof.
   intros s. unfold restore_continuation. destruct (tget _ _); [|exact I].
   destruct (scap s <? _); [exact I|]. unfold rpost; apply kmono_regs; cbn; try reflexivity; lia.
 Qed.
+Lemma mono_set_globals (b : vm -> list (N * N)) (l : vm -> list vcell) :
+  mono kmono (fun s => ROk tt (with_globals s (b s) (l s))).
+Proof. intros s. unfold rpost; apply kmono_regs; cbn; try reflexivity; lia. Qed.
 Lemma mono_log (f : vm -> list outev) (v : vcell) : mono kmono (fun s => ROk v (with_log s (f s))).
 Proof. intros s. unfold rpost; apply kmono_regs; cbn; try reflexivity; lia. Qed.
 
